@@ -339,3 +339,86 @@ package server
 //@   requires m != nil && partition != nil
 //@   call selectPartitionLeader requires [candidates-exclude-leader] len(arg1) >= 1 && (forall j int :: 0 <= j && j < len(arg1) ==> arg1[j] != leader)
 //@   loop 1 invariant forall j int :: 0 <= j && j < len(candidates) ==> candidates[j] != leader
+
+// ---------------------------------------------------------------------------------------------
+// Metadata state machine (property C06): operations are applied under their Raft index as epoch,
+// replayed operations are no-ops, and replay deletes stream data only through tombstones.
+//@ ghost var oldEpoch uint64
+//@ ghost var tombstoned bool
+
+// apply: every operation is dispatched with the entry's index as epoch; CREATE stamps that index
+// on every partition before the stream is added; unknown operations are errors
+//@ func (*Server).apply serves C06, C07
+//@   returns (v, err)
+//@   requires s != nil && log != nil
+//@   call applyCreateStream requires [stamped-with-index] arg3 == index && arg2 == recovered && (forall j int :: 0 <= j && j < len(log.CreateStreamOp.Stream.Partitions) ==> log.CreateStreamOp.Stream.Partitions[j].LeaderEpoch == index && log.CreateStreamOp.Stream.Partitions[j].Epoch == index)
+//@   call applyShrinkISR requires [index-as-epoch] arg4 == index && arg1 == log.ShrinkISROp.Stream && arg2 == log.ShrinkISROp.ReplicaToRemove && arg3 == log.ShrinkISROp.Partition
+//@   call applyExpandISR requires [index-as-epoch] arg4 == index && arg1 == log.ExpandISROp.Stream && arg2 == log.ExpandISROp.ReplicaToAdd && arg3 == log.ExpandISROp.Partition
+//@   call applyChangePartitionLeader requires [index-as-epoch] arg4 == index && arg1 == log.ChangeLeaderOp.Stream && arg2 == log.ChangeLeaderOp.Leader && arg3 == log.ChangeLeaderOp.Partition
+//@   call applyDeleteStream requires [index-as-epoch] arg3 == index && arg2 == recovered && arg1 == log.DeleteStreamOp.Stream
+//@   call applyResumeStream requires [recovery-flag] arg3 == recovered
+//@   call applyCreateConsumerGroup requires [recovery-flag] arg2 == recovered
+//@   call applyJoinConsumerGroup requires [index-as-epoch] arg4 == index
+//@   call applyLeaveConsumerGroup requires [index-as-epoch] arg3 == index
+//@   call applyChangeConsumerGroupCoordinator requires [index-as-epoch] arg3 == index
+//@   loop 1 invariant -1 <= rangeindex && log.CreateStreamOp.Stream.Partitions == old(log.CreateStreamOp.Stream.Partitions)
+//@   loop 1 invariant forall j int :: 0 <= j && j < len(log.CreateStreamOp.Stream.Partitions) ==> log.CreateStreamOp.Stream.Partitions[j] == old(log.CreateStreamOp.Stream.Partitions[j])
+//@   loop 1 invariant forall j int :: 0 <= j && j <= rangeindex ==> log.CreateStreamOp.Stream.Partitions[j].LeaderEpoch == index && log.CreateStreamOp.Stream.Partitions[j].Epoch == index
+
+// idempotency guards: an operation whose epoch is not newer than the partition's epoch changes nothing;
+// otherwise the change is made and the partition's epoch becomes the operation's epoch
+//@ func (*metadataAPI).RemoveFromISR serves C06, C07
+//@   requires m != nil
+//@   ghost after call GetEpoch: ghost.oldEpoch := ret0
+//@   call (*partition).RemoveFromISR requires [only-newer-epoch] ghost.oldEpoch < epoch && arg1 == replica
+//@   call SetEpoch requires [epoch-recorded] ghost.oldEpoch < epoch && arg1 == epoch
+//@ func (*metadataAPI).AddToISR serves C06, C07
+//@   requires m != nil
+//@   ghost after call GetEpoch: ghost.oldEpoch := ret0
+//@   call (*partition).AddToISR requires [only-newer-epoch] ghost.oldEpoch < epoch && arg1 == replica
+//@   call SetEpoch requires [epoch-recorded] ghost.oldEpoch < epoch && arg1 == epoch
+//@ func (*metadataAPI).ChangeLeader serves C06, C07
+//@   requires m != nil
+//@   ghost after call GetEpoch: ghost.oldEpoch := ret0
+//@   call SetLeader requires [only-newer-epoch] ghost.oldEpoch < epoch && arg1 == leader && arg2 == epoch
+//@   call SetEpoch requires [epoch-recorded] ghost.oldEpoch < epoch && arg1 == epoch
+//@ func (*partition).GetEpoch serves C06
+//@   modifies nothing
+//@   ensures result == p.Epoch
+//@ func (*partition).SetEpoch serves C06
+//@   requires p != nil
+//@   modifies p.Partition.Epoch
+//@   ensures p.Epoch == epoch
+
+// replay: stream data is deleted only outside recovery, or for a stream that is still tombstoned
+// when recovery has finished; during recovery a delete only tombstones
+//@ func (*metadataAPI).RemoveStream serves C06
+//@   call deleteStream requires [not-during-replay] !recovered
+//@   call Tombstone requires [replay-only-tombstones] recovered
+//@ func (*metadataAPI).RemoveTombstonedStream serves C06
+//@   ghost after call IsTombstoned: ghost.tombstoned := ret0
+//@   call deleteStream requires [still-tombstoned] ghost.tombstoned && arg1 == stream
+//@ func (*Server).finishedRecovery serves C06
+//@   ghost after call IsTombstoned: ghost.tombstoned := ret0
+//@   call RemoveTombstonedStream requires [only-tombstoned] ghost.tombstoned
+//@   call (*partition).StartRecovered requires [not-for-tombstoned] !ghost.tombstoned
+//@ callers (*metadataAPI).deleteStream serves C06: (*metadataAPI).RemoveStream, (*metadataAPI).RemoveTombstonedStream
+//@ callers (*metadataAPI).RemoveTombstonedStream serves C06: (*Server).finishedRecovery
+//@ callers (*stream).Delete serves C06: (*metadataAPI).deleteStream
+
+// a partition (re)built from its metadata (snapshot restore, resume, replay) carries the metadata's
+// read-only flag on its log, and addPartition re-applies the paused flag
+//@ ghost var roApplied bool
+//@ ghost var pauseApplied bool
+//@ func (*Server).newPartition serves C06
+//@   returns (p, err)
+//@   requires protoPartition != nil
+//@   ghost at entry: ghost.roApplied := false
+//@   ghost after call SetReadonly: ghost.roApplied := arg1
+//@   ensures [readonly-reapplied] err == nil && old(protoPartition.Readonly) ==> ghost.roApplied
+//@   ensures [built-from-metadata] err == nil ==> p != nil && p.Partition == protoPartition
+//@ func (*metadataAPI).addPartition serves C06
+//@   requires protoPartition != nil
+//@   ghost at entry: ghost.pauseApplied := false
+//@   ghost after call Pause: ghost.pauseApplied := true
+//@   ensures [paused-reapplied] result == nil && old(protoPartition.Paused) ==> ghost.pauseApplied
